@@ -218,7 +218,19 @@ func C12() *sim.Check {
 			in.CheckStart = checkStart
 			return in
 		}
-		one := runPS(mk(), src, gen.RefSchedule(), nil, sim.Fault{}, nil)
+		var one *psExec
+		func() {
+			defer func() {
+				if recover() != nil {
+					one = nil
+				}
+			}()
+			one = runPS(mk(), src, gen.RefSchedule(), nil, sim.Fault{}, nil)
+		}()
+		if one == nil {
+			c.St.Inc("skipped_reference_panics(C01)")
+			return nil // the program crashes the interpreter in one call already: C01's business
+		}
 		k := 1 + t.Choose(4)
 		var cuts []int
 		for i := 0; i < k; i++ {
